@@ -20,7 +20,14 @@ impl FlattenedJson {
     /// Create a `FlattenedJson` from `Raw`.
     pub fn from_raw<T>(raw: &Raw<T>) -> Self {
         let mut s = Self { map: BTreeMap::new() };
-        s.flatten_value(to_json_value(raw).unwrap(), "".into());
+
+        // `Raw` only guarantees that the JSON is syntactically valid, the conversion fails if it
+        // contains a number that is out of range, like `1e999`. No property of such an event
+        // can be matched.
+        if let Ok(value) = to_json_value(raw) {
+            s.flatten_value(value, "".into());
+        }
+
         s
     }
 
